@@ -97,7 +97,8 @@ retry_fetch_lv:
     }
 
     if (target_border->get_key_length_at(lv_pos) <= sizeof(key_slice_type)) {
-        value* vp = lv_ptr->get_value();
+        bool lv_empty{false};
+        value* vp = lv_ptr->get_value(lv_empty);
         auto* v_body = static_cast<ValueType*>(value::get_body(vp));
         node_version64_body final_check = target_border->get_stable_version();
         if (final_check.get_vsplit() != v_at_fb.get_vsplit() ||
@@ -108,6 +109,13 @@ retry_fetch_lv:
         if (final_check.get_vinsert_delete() !=
             v_at_fetch_lv.get_vinsert_delete()) {
             YAKUSHIMA_VERIF_HOOK(YAKUSHIMA_VERIF_RETRY, nullptr);
+            goto retry_fetch_lv; // NOLINT
+        }
+        if (lv_empty) {
+            /**
+             * The entry was removed after its slot had been located. A remove clears the slot without
+             * changing the node version, so the checks above cannot notice it: look the key up again.
+             */
             goto retry_fetch_lv; // NOLINT
         }
         out = std::make_pair(v_body, value::get_len(vp));
